@@ -112,4 +112,63 @@ example : explodePieces 8 20 true = .ok ⟨8, [0, 1, 2, 3, 4, 5, 6, 7]⟩ := rfl
 example : explodePieces 8 6 true = .ok ⟨7, [0, 1, 2, 3, 4, 5, 6]⟩ := rfl
 example : explodePieces 8 7 false = .ok ⟨8, [0, 1, 2, 3, 4, 5, 6, 7]⟩ := rfl
 
+/-- add_array: the two copies lie inside the `res` elements that are allocated, and `res` respects the limit, for all
+    `unsigned short` sizes and every non-negative configured limit -/
+theorem add_array_in_bounds (maxArr psize rsize : Int) (out : Fill) (hp : 0 ≤ psize ∧ psize ≤ 65535)
+    (hr : 0 ≤ rsize ∧ rsize ≤ 65535) (h : addArray maxArr psize rsize = .ok out) :
+    out.alloc ≤ maxArr ∧ ∀ w ∈ out.writes, 0 ≤ w.1 ∧ 0 ≤ w.2 ∧ w.1 + w.2 ≤ out.alloc := by
+  unfold addArray at h
+  simp only at h
+  have hres : addArrayRes psize rsize = psize + rsize := by
+    simp only [addArrayRes, trunc32_id psize (by omega) (by omega), trunc32_id rsize (by omega) (by omega)]
+    exact trunc32_id _ (by omega) (by omega)
+  rw [hres] at h
+  split at h
+  · cases h
+  · rename_i g
+    have g' : ¬ (psize + rsize < 0 ∨ psize + rsize > maxArr) := by simpa [guard_add_array] using g
+    cases h
+    refine ⟨by dsimp only; omega, ?_⟩
+    intro w hw
+    simp at hw
+    rcases hw with rfl | rfl <;> dsimp only <;> omega
+
+/-- implode_string: when the size check passes, the `size_t` expression that is allocated has not wrapped - it is
+    exactly the number of bytes the fill loop writes (strings + delimiters), the NUL fits behind it, and the result
+    respects MaxStringLength - for every count of strings >= 1 and all lengths below 2^62 -/
+theorem implode_in_bounds (maxStr size num delLen : Int) (out : Fill) (hm : 0 ≤ maxStr ∧ maxStr ≤ 2147483647)
+    (hs : 0 ≤ size ∧ size < 4611686018427387904) (hn : 1 ≤ num ∧ num ≤ 65535)
+    (hd : 0 ≤ delLen ∧ delLen < 70368744177664)
+    (h : implode maxStr size num delLen = .ok out) :
+    out.alloc = size + (num - 1) * delLen + 1 ∧ out.alloc ≤ maxStr + 1 ∧
+      ∀ w ∈ out.writes, 0 ≤ w.1 ∧ 0 ≤ w.2 ∧ w.1 + w.2 ≤ out.alloc := by
+  have hprod0 : 0 ≤ (num - 1) * delLen := Int.mul_nonneg (by omega) hd.1
+  have hprod1 : (num - 1) * delLen < 65535 * 70368744177664 := by
+    have : (num - 1) * delLen ≤ 65534 * delLen := Int.mul_le_mul_of_nonneg_right (by omega) hd.1
+    omega
+  have e1 : trunc32 (num - 1) = num - 1 := trunc32_id _ (by omega) (by omega)
+  have e2 : truncU64 (num - 1) = num - 1 := by unfold truncU64; exact Int.emod_eq_of_lt (by omega) (by omega)
+  have e3 : truncU64 ((num - 1) * delLen) = (num - 1) * delLen := by
+    unfold truncU64; exact Int.emod_eq_of_lt hprod0 (by omega)
+  have e4 : truncU64 (size + (num - 1) * delLen) = size + (num - 1) * delLen := by
+    unfold truncU64; exact Int.emod_eq_of_lt (by omega) (by omega)
+  have e5 : truncU64 maxStr = maxStr := by unfold truncU64; exact Int.emod_eq_of_lt (by omega) (by omega)
+  have hal : implodeAlloc size num delLen = size + (num - 1) * delLen := by
+    simp only [implodeAlloc, e1, e2, e3, e4]
+  unfold implode at h
+  split at h
+  · cases h
+  · rename_i g
+    have g' : ¬ size + (num - 1) * delLen > maxStr := by
+      simpa [guard_implode, e1, e2, e3, e4, e5] using g
+    cases h
+    refine ⟨by dsimp only; rw [hal], by dsimp only; rw [hal]; omega, ?_⟩
+    intro w hw
+    simp at hw
+    rcases hw with rfl | rfl <;> dsimp only <;> rw [hal] <;> omega
+
+example : addArray 8 3 5 = .ok ⟨8, [(0, 3), (3, 5)]⟩ := rfl
+example : addArray 8 4 5 = .error (.lpc msg_add_array) := rfl
+example : implode 64 10 3 2 = .ok ⟨15, [(0, 14), (14, 1)]⟩ := rfl
+
 end NV.C01
